@@ -640,7 +640,7 @@ A return value of true indicates a successful transfer.
 */
 func (r Stack) Transfer(dest any) (ok bool) {
 	if r.IsInit() {
-		if s, sok := stackTypeAliasConverter(dest); sok {
+		if s, sok := stackTypeAliasConverter(dest); sok && s.IsInit() {
 			if !s.getState(ronly) {
 				ok = r.transfer(s.stack)
 			}
